@@ -13,7 +13,7 @@ import sys
 import numpy as np
 import pandas as pd
 
-TEMPLATES = ["once", "stateful", "targetvol", "random", "nested", "perm", "momentum", "overtime_nested", "equal_limit", "replay"]
+TEMPLATES = ["once", "stateful", "targetvol", "random", "nested", "perm", "momentum", "overtime_nested", "equal_limit", "replay", "dictnode"]
 CONFIGS = [
     {"data": "d25", "fee": None, "integer": True},
     {"data": "d12", "fee": "propdec", "integer": False},
@@ -51,6 +51,13 @@ def template(name, idx):
         return bt.Strategy("t", [log, A.ClosePositionsAfterDates("closes"), A.RunDaily(), A.SelectThese(["a", "b", "d"]), A.SelectActive(), A.WeighEqually(), A.Rebalance()], [bt.Security("a"), bt.Security("b"), bt.Security("d")])
     if name == "perm_random":
         return bt.Strategy("t", [log, A.ClosePositionsAfterDates("closes"), A.RunDaily(), A.SelectAll(), A.SelectActive(), A.SelectRandomly(2), A.WeighRandomly(), A.Rebalance()], [bt.Security("a"), bt.Security("b"), bt.Security("c"), bt.Security("d")])
+    if name == "dictnode":
+        # one node object first handed to another strategy under a different key: it stays the caller's 'a'
+        node = bt.Security("a")
+        bt.Strategy("first", [A.RunOnce(), A.SelectAll(), A.WeighEqually(), A.Rebalance()], {"b": node})
+        if node.name != "a":
+            raise RuntimeError("building a strategy renamed the caller's node %r -> %r" % ("a", node.name))
+        return bt.Strategy("t", [log, A.RunDaily(), A.SelectAll(), A.WeighEqually(), A.Rebalance()], [node, bt.Security("d")])
     if name == "replay":
         return bt.Strategy("t", [log, A.ReplayTransactions("tx")], [bt.Security("a"), bt.Security("b")])
     if name == "equal_wide_limit":
@@ -120,6 +127,22 @@ def solo(tname, cfg, seed):
     """the backtest constructed from a fresh template and run alone"""
     from .. import rt
 
+    if tname == "bench":
+        # bt.backtest.benchmark_random: the random portfolios of a seeded run
+        import contextlib, io
+
+        bt = rt.bt()
+        A = bt.algos
+        data, ad = inputs(cfg)
+        base = make_backtest(template("once", data.index), cfg, data, ad)
+        rs = bt.Strategy("rnd", [A.RunWeekly(), A.SelectAll(), A.SelectRandomly(2), A.WeighRandomly(), A.Rebalance()])
+        rt.seed_rng(seed)
+        with contextlib.redirect_stderr(io.StringIO()), contextlib.redirect_stdout(io.StringIO()):
+            res = bt.backtest.benchmark_random(base, rs, nsim=2)
+        h = hashlib.sha1()
+        for name in sorted(res.backtests):
+            h.update(result_digest(res.backtests[name])[0].encode())
+        return h.hexdigest()
     data, ad = inputs(cfg)
     tpl = template(tname, data.index)
     b = make_backtest(tpl, cfg, data, ad)
@@ -250,7 +273,7 @@ def run(ctx):
     kinds = ["py"] if ctx.tier == "quick" else ["py", "cy"]
     if ctx.tier == "quick":
         k0 = ctx.seed % len(TEMPLATES)
-        tn = sorted(set([TEMPLATES[k0], TEMPLATES[(k0 + 3) % len(TEMPLATES)], "perm", "targetvol", "random", "equal_limit", "replay"]))
+        tn = sorted(set([TEMPLATES[k0], TEMPLATES[(k0 + 3) % len(TEMPLATES)], "perm", "targetvol", "random", "equal_limit", "replay", "dictnode"]))
         seeds = [0, 1, 2, 3]
     else:
         tn = TEMPLATES
@@ -265,7 +288,7 @@ def run(ctx):
                 items.append((t, [CONFIGS[0], CONFIGS[1], CONFIGS[2]], order, False))
                 if ctx.tier != "quick":
                     items.append((t, [CONFIGS[0]] * 3, order, True))
-    hs = [(t, ci, seeds) for t in (tn + ["random_decl", "perm_random"]) for ci in (0, 1)]
+    hs = [(t, ci, seeds) for t in (tn + ["random_decl", "perm_random", "bench"]) for ci in (0, 1)]
     hist = [(t, ci, [[t, 3], [t, 4], [t, 1]]) for t in (TEMPLATES + ["equal_wide_limit", "equal_closedead"] if ctx.tier != "quick" else sorted(set(tn + ["equal_wide_limit", "equal_closedead", "momentum"]))) for ci in ((0,) if ctx.tier == "quick" else (0, 1))]
     ctx.bounds = {"process_history_cases": len(hist), "templates": tn, "schedules": len(items), "hash_seed_cases": len(hs), "hash_seeds": seeds, "builds": kinds}
     for kind in kinds:
